@@ -370,6 +370,11 @@ class R:
             return float(self.v)
         raise TypeError("symbolic real used as a float")
 
+    def __int__(self):
+        if self.is_const():
+            return int(self.v)
+        raise TypeError("symbolic real used as an int")
+
     # numpy ufunc dispatch on object arrays
     def exp(self):
         return uexp(self)
@@ -1027,13 +1032,14 @@ def exact_env(extra_modules=None, fft=None):
 # queries
 
 
-def solver_for(c, timeout_ms=60000):
+def solver_for(c, timeout_ms=60000, with_axioms=True):
     s = z3.Solver()
     s.set("timeout", timeout_ms)
     s.add(c.assume)
     s.add(c.side)
     s.add(c.pc)
-    s.add(axioms(c))
+    if with_axioms:
+        s.add(axioms(c))
     return s
 
 
@@ -1043,3 +1049,95 @@ def neq(a, b):
         a, b = C.of(a), C.of(b)
         return z3.Or(zt(a.re) != zt(b.re), zt(a.im) != zt(b.im))
     return zt(a) != zt(b)
+
+
+# ---------------------------------------------------------------------------
+# truncated power series in formal layer thicknesses (for consistency orders)
+
+
+class PS:
+    """truncated multivariate power series sum c_m eps^m, |m| <= deg, with exact
+    complex coefficients; m is a tuple of exponents"""
+
+    DEG = 2
+
+    def __init__(self, d, nv):
+        self.d = {m: c for m, c in d.items() if sum(m) <= PS.DEG}
+        self.nv = nv
+
+    @staticmethod
+    def var(i, nv):
+        m = tuple(1 if k == i else 0 for k in range(nv))
+        return PS({m: C(1, 0)}, nv)
+
+    @staticmethod
+    def const(v, nv):
+        return PS({(0,) * nv: C.of(v)}, nv)
+
+    def coeff(self, m):
+        return self.d.get(tuple(m), C(0, 0))
+
+    def _co(self, o):
+        if isinstance(o, PS):
+            return o
+        c = C.of(o)
+        if c is None:
+            return None
+        return PS.const(c, self.nv)
+
+    def __add__(self, o):
+        o = self._co(o)
+        if o is None:
+            return NotImplemented
+        d = dict(self.d)
+        for m, c in o.d.items():
+            d[m] = d[m] + c if m in d else c
+        return PS(d, self.nv)
+
+    __radd__ = __add__
+
+    def __neg__(self):
+        return PS({m: -c for m, c in self.d.items()}, self.nv)
+
+    def __sub__(self, o):
+        o = self._co(o)
+        if o is None:
+            return NotImplemented
+        return self + (-o)
+
+    def __rsub__(self, o):
+        o = self._co(o)
+        if o is None:
+            return NotImplemented
+        return o + (-self)
+
+    def __mul__(self, o):
+        o = self._co(o)
+        if o is None:
+            return NotImplemented
+        d = {}
+        for m1, c1 in self.d.items():
+            for m2, c2 in o.d.items():
+                m = tuple(a + b for a, b in zip(m1, m2))
+                if sum(m) > PS.DEG:
+                    continue
+                d[m] = d[m] + c1 * c2 if m in d else c1 * c2
+        return PS(d, self.nv)
+
+    __rmul__ = __mul__
+
+    def __truediv__(self, o):
+        c = C.of(o)
+        if c is None:
+            return NotImplemented
+        return PS({m: v / c for m, v in self.d.items()}, self.nv)
+
+    def __pow__(self, k):
+        k = int(k)
+        out = PS.const(1, self.nv)
+        for _ in range(k):
+            out = out * self
+        return out
+
+    def conjugate(self):
+        return PS({m: c.conjugate() for m, c in self.d.items()}, self.nv)
